@@ -345,6 +345,19 @@ static __thread long t13_target = -1;   /* call index to mutate */
 static __thread long t13_off, t13_mask, t13_applied;
 static __thread size_t t13_last_len;
 
+/* replacement record for the planned call (hostile-peer mutations inside encrypted flights) */
+static __thread uint8_t *t13_repl;
+static __thread size_t t13_repl_len;
+void vf_t13_replace(const uint8_t *rec, size_t len)
+{
+	free(t13_repl); t13_repl = NULL; t13_repl_len = 0;
+	if (rec && len) { t13_repl = malloc(len); memcpy(t13_repl, rec, len); t13_repl_len = len; }
+}
+/* copy of the plaintext record seen at the planned call (so the harness can mutate a real message) */
+static __thread uint8_t t13_seen[20000];
+static __thread size_t t13_seen_len;
+long vf_t13_seen(uint8_t *out, size_t cap) { size_t n = t13_seen_len < cap ? t13_seen_len : cap; memcpy(out, t13_seen, n); return (long)t13_seen_len; }
+
 void vf_t13_set_real(void *p) { t13_real = (t13enc_fn)p; }
 void vf_t13_plan(long call_index, long offset, long mask)
 {
@@ -360,6 +373,14 @@ int tls13_record_encrypt(const void *key, const uint8_t iv[12], const uint8_t se
 {
 	long idx = t13_calls++;
 	if (!t13_real) return -1;
+	if (idx == t13_target && reclen <= sizeof(t13_seen)) { memcpy(t13_seen, rec, reclen); t13_seen_len = reclen; }
+	if (idx == t13_target && t13_repl) {
+		/* the output block the callers provide holds TLS_MAX_RECORD_SIZE bytes: keep replacements within what
+		 * tls13_record_encrypt itself would be asked to protect */
+		t13_applied = 1;
+		t13_last_len = t13_repl_len > 5 ? t13_repl_len - 5 : 0;
+		return t13_real(key, iv, seq, t13_repl, t13_repl_len, padding, out, outlen);
+	}
 	if (idx == t13_target && reclen > 5) {
 		uint8_t *copy = malloc(reclen);
 		int r;
